@@ -21,6 +21,7 @@ func main() {
 	for _, cs := range probe.Plan() {
 		{
 			custom, sc := cs.Custom, cs.Sc
+			probe.SetCase(cs)
 			r := probe.New(key, sc, false)
 			opts := []sgin.Option{sgin.WithResourceExtractor(func(c *gin.Context) string { return r.Res })}
 			if custom {
